@@ -577,10 +577,11 @@ def run():
     for key, pname, size in plan:
         progs = programs(mido, size)
         # thorough: one more preemption where the tree stays tractable
-        # (measured: the P2/P3/P4/P7 trees exceed 10 CPU-minutes each at
-        # bound 2), one more free-switch deviation everywhere
+        # (measured at bound 2 with 2 free-switch deviations: P2 205 246
+        # schedules / 39 CPU-minutes; P3, P3b, P4, P4c, P4d and P7 each
+        # exceed one CPU-hour), one more free-switch deviation everywhere
         bound = 2 if thorough and size == 1 and pname.startswith(
-            ('P1', 'P5', 'P6')) else 1
+            ('P1', 'P2', 'P5', 'P6')) else 1
         if pname.startswith('P5'):
             bound += 1
         if pname.startswith('P8'):
